@@ -84,3 +84,99 @@ Definition prop_c02ors (input obs : val) : val :=
   if forallb (fun r => if vN (vnth 3 r) =? 0 then vN (vnth 2 r) =? base + vN (vnth 4 r)
                        else vN (vnth 2 r) + vN (vnth 4 r) =? base) (vL obs) then VT "ok"
   else VL [VT "FAIL"; VT "offset-is-not-base-plus-position"].
+
+(* ---- kind c02hist: histories over the legacy root-module reader ---------------------------------------
+   input: (slot-sizes ops hok-table hdr-table)
+     ops: (topen rid slot file expect) | (tnext rid n)
+          slot 0 = the source is a plain reader; slot s > 0 = the caller hands NewCarReader its own
+          bufio.Reader number s (size slot-sizes[s-1]), Reset onto the file; the caller reuses a slot only
+          after the reader it gave it to has reported its end.  (tnext rid n) = call Next on reader rid
+          up to n times, stopping at the first error; no call is made on a reader after its first error.
+     expect (per open): (tnone) | (ttrunc orig nonboundary) | (tcorrupt orig i)
+   observation: per op  (topenerr e) | (topened roots) | (tblocks (blocks...) end)  with end = (tmore) | (tend e)
+   The model: readers are independent -- every reader returns the blocks and the terminating error of
+   root_read_all on its own file, whatever else happens in the history (slots, sizes and interleaving
+   are a harness dimension). *)
+Definition hist_state := list (N * (list block * err)).     (* live readers: remaining blocks, end *)
+
+Fixpoint hist_get (st : hist_state) (rid : N) : option (list block * err) :=
+  match st with
+  | [] => None
+  | (r, x) :: t => if r =? rid then Some x else hist_get t rid
+  end.
+Fixpoint hist_del (st : hist_state) (rid : N) : hist_state :=
+  match st with
+  | [] => []
+  | (r, x) :: t => if r =? rid then t else (r, x) :: hist_del t rid
+  end.
+
+Fixpoint hist_run (hok : bytes -> bytes -> option bool) (hdr : bytes -> option (list bytes * N))
+         (st : hist_state) (ops : list val) : list val :=
+  match ops with
+  | [] => []
+  | op :: ops' =>
+    if is_tag (vnth 0 op) "open" then
+      let rid := vN (vnth 1 op) in
+      match root_read_all hok hdr (vB (vnth 3 op)) with
+      | Err e => VL [VT "openerr"; v_err e] :: hist_run hok hdr st ops'
+      | Ok (roots, out) =>
+          VL [VT "opened"; v_cids roots]
+          :: hist_run hok hdr ((rid, (s_blocks out, s_end out)) :: hist_del st rid) ops'
+      end
+    else
+      let rid := vN (vnth 1 op) in
+      let n := N.to_nat (vN (vnth 2 op)) in
+      match hist_get st rid with
+      | None => VL [VT "dead"] :: hist_run hok hdr st ops'
+      | Some (bl, e) =>
+          if (length bl <? n)%nat
+          then VL [VT "blocks"; v_blocks bl; VL [VT "end"; v_err e]] :: hist_run hok hdr (hist_del st rid) ops'
+          else VL [VT "blocks"; v_blocks (firstn n bl); VL [VT "more"]]
+               :: hist_run hok hdr ((rid, (skipn n bl, e)) :: hist_del st rid) ops'
+      end
+  end.
+
+Definition run_c02hist (input : val) : val :=
+  VL (hist_run (hok_lookup (vL (vnth 2 input))) (hdr_lookup (vL (vnth 3 input))) [] (vL (vnth 1 input))).
+
+(* what reader rid did over the whole history: its blocks in order and its end (if reported) *)
+Fixpoint hist_collect (rid : N) (ops obs : list val) (live : bool) : list (bytes * bytes) * val :=
+  match ops, obs with
+  | op :: ops', o :: obs' =>
+    if is_tag (vnth 0 op) "open" then
+      if vN (vnth 1 op) =? rid then ([], VL [VT "more"])          (* the id is reused: stop *)
+      else hist_collect rid ops' obs' live
+    else if live && (vN (vnth 1 op) =? rid) && is_tag (vnth 0 o) "blocks" then
+      let r := hist_collect rid ops' obs' (is_tag (vnth 0 (vnth 2 o)) "more") in
+      (vblocks (vnth 1 o) ++ fst r, if is_tag (vnth 0 (vnth 2 o)) "more" then snd r else vnth 2 o)
+    else hist_collect rid ops' obs' live
+  | _, _ => ([], VL [VT "more"])
+  end.
+
+Fixpoint hist_check (hok : bytes -> bytes -> option bool) (ops obs : list val) : val :=
+  match ops, obs with
+  | op :: ops', o :: obs' =>
+    if is_tag (vnth 0 op) "open" && is_tag (vnth 0 o) "opened" then
+      let expect := vnth 4 op in
+      let r := hist_collect (vN (vnth 1 op)) ops' obs' true in
+      let blocks := fst r in
+      let ended_eof := is_tag (vnth 0 (snd r)) "end" && is_tag (vnth 1 (snd r)) "eof" in
+      if negb (forallb (block_hash_ok hok) blocks) then VL [VT "FAIL"; VT "returned-block-hash-mismatch"]
+      else if is_tag (vnth 0 expect) "trunc" then
+        if negb (blocks_prefix blocks (vblocks (vnth 1 expect)))
+        then VL [VT "FAIL"; VT "truncation-returned-foreign-block"]
+        else if vbool (vnth 2 expect) && ended_eof
+        then VL [VT "FAIL"; VT "truncation-reported-as-clean-eof"; VT "reader-history"]
+        else hist_check hok ops' obs'
+      else if is_tag (vnth 0 expect) "corrupt" then
+        if negb (blocks_prefix blocks (firstn (N.to_nat (vN (vnth 2 expect))) (vblocks (vnth 1 expect))))
+        then VL [VT "FAIL"; VT "corruption-wrong-blocks-returned"]
+        else if ended_eof then VL [VT "FAIL"; VT "corruption-reported-as-clean-eof"; VT "reader-history"]
+        else hist_check hok ops' obs'
+      else hist_check hok ops' obs'
+    else hist_check hok ops' obs'
+  | _, _ => VT "ok"
+  end.
+
+Definition prop_c02hist (input obs : val) : val :=
+  hist_check (hok_lookup (vL (vnth 2 input))) (vL (vnth 1 input)) (vL obs).
